@@ -224,6 +224,131 @@ pub proof fn lemma_val_inj(s: Seq<Limb>, t: Seq<Limb>, n: nat)
     }
 }
 
+pub proof fn lemma_val_zero_iff(s: Seq<Limb>, n: nat)
+    ensures (val(s, n) == 0) == (forall|k: int| 0 <= k < n ==> s[k].0 == 0)
+    decreases n
+{
+    if n > 0 {
+        let m = (n - 1) as nat;
+        lemma_val_zero_iff(s, m);
+        lemma_val_bound(s, m); lemma_bp_succ(m);
+        let a = s[m as int].0 as int; let p = bp(m);
+        assert(a * p >= 0) by (nonlinear_arith) requires a >= 0, p > 0;
+        assert(a > 0 ==> a * p > 0) by (nonlinear_arith) requires p > 0;
+        if val(s, n) == 0 {
+            assert(a == 0);
+            assert(forall|k: int| 0 <= k < n ==> s[k].0 == 0) by { assert(forall|k: int| 0 <= k < m ==> s[k].0 == 0); }
+        }
+        if forall|k: int| 0 <= k < n ==> s[k].0 == 0 {
+            assert(forall|k: int| 0 <= k < m ==> s[k].0 == 0);
+            assert(a * p == 0) by (nonlinear_arith) requires a == 0;
+        }
+    }
+}
+
+pub proof fn lemma_val_eq_iff(s: Seq<Limb>, t: Seq<Limb>, n: nat)
+    ensures (val(s, n) == val(t, n)) == (forall|k: int| 0 <= k < n ==> s[k].0 == t[k].0)
+{
+    if val(s, n) == val(t, n) { lemma_val_inj(s, t, n); }
+    if forall|k: int| 0 <= k < n ==> s[k].0 == t[k].0 {
+        assert(forall|k: int| 0 <= k < n ==> s[k] == t[k]);
+        lemma_val_ext(s, t, n);
+    }
+}
+
+/// val(s, n) = s[0] + B * (something): parity and low limb
+pub proof fn lemma_val_low(s: Seq<Limb>, n: nat)
+    requires n >= 1
+    ensures val(s, n) % B() == s[0].0 as int, val(s, n) % 2 == (s[0].0 as int) % 2,
+        val(s, n) >= s[0].0 as int
+    decreases n
+{
+    lemma_bp1();
+    if n == 1 {
+        assert(val(s, 1) == val(s, 0) + s[0].0 as int * bp(0));
+        assert(val(s, 0) == 0);
+        lemma_small_mod(s[0].0 as nat, B() as nat);
+    } else {
+        let m = (n - 1) as nat;
+        lemma_val_low(s, m);
+        lemma_bp_succ((m - 1) as nat);
+        let a = s[m as int].0 as int; let q = bp((m - 1) as nat);
+        assert(a * bp(m) == (a * q) * B()) by (nonlinear_arith) requires bp(m) == B() * q;
+        assert(a * q >= 0) by (nonlinear_arith) requires a >= 0, q > 0;
+        lemma_mod_multiples_vanish(a * q, val(s, m), B());
+        assert((a * q) * B() == (a * q * 0x8000_0000_0000_0000) * 2) by (nonlinear_arith);
+        lemma_mod_multiples_vanish(a * q * 0x8000_0000_0000_0000, val(s, m), 2);
+    }
+}
+
+/// comparison is decided by the most significant differing limb
+pub proof fn lemma_val_cmp_top(s: Seq<Limb>, t: Seq<Limb>, i: nat, n: nat)
+    requires i < n, forall|k: int| i < k < n ==> s[k].0 == t[k].0, s[i as int].0 < t[i as int].0
+    ensures val(s, n) < val(t, n)
+    decreases n - i
+{
+    if n == i + 1 {
+        lemma_val_bound(s, i); lemma_val_bound(t, i);
+        let a = s[i as int].0 as int; let b = t[i as int].0 as int; let p = bp(i);
+        assert(a * p + p <= b * p) by (nonlinear_arith) requires a + 1 <= b, p > 0;
+    } else {
+        lemma_val_cmp_top(s, t, i, (n - 1) as nat);
+    }
+}
+
+pub proof fn lemma_val_hi_zero(s: Seq<Limb>, m: nat, n: nat)
+    requires m <= n, forall|k: int| m <= k < n ==> s[k].0 == 0
+    ensures val(s, n) == val(s, m)
+    decreases n - m
+{
+    if n > m {
+        lemma_val_hi_zero(s, m, (n - 1) as nat);
+        assert(s[n - 1].0 as int * bp((n - 1) as nat) == 0) by (nonlinear_arith) requires s[n - 1].0 == 0;
+    }
+}
+
+/// the low m limbs are the value modulo B^m
+pub proof fn lemma_val_mod(s: Seq<Limb>, m: nat, n: nat)
+    requires m <= n
+    ensures val(s, n) % bp(m) == val(s, m)
+    decreases n - m
+{
+    lemma_val_bound(s, m);
+    if n == m {
+        lemma_small_mod(val(s, m) as nat, bp(m) as nat);
+    } else {
+        let n1 = (n - 1) as nat;
+        lemma_val_mod(s, m, n1);
+        lemma_bp_add(m, (n1 - m) as nat);
+        let a = s[n1 as int].0 as int; let q = bp((n1 - m) as nat); let pm = bp(m);
+        assert(a * bp(n1) == (a * q) * pm) by (nonlinear_arith) requires bp(n1) == pm * q;
+        lemma_mod_multiples_vanish(a * q, val(s, n1), pm);
+    }
+}
+
+pub proof fn lemma_val_all_max(s: Seq<Limb>, n: nat)
+    requires forall|k: int| 0 <= k < n ==> s[k].0 == u64::MAX
+    ensures val(s, n) == bp(n) - 1
+    decreases n
+{
+    lemma_bp1();
+    if n > 0 {
+        lemma_val_all_max(s, (n - 1) as nat);
+        lemma_bp_succ((n - 1) as nat);
+        let p = bp((n - 1) as nat);
+        assert((B() - 1) * p == B() * p - p) by (nonlinear_arith);
+    }
+}
+
+/// a value whose limbs above the first are zero
+pub proof fn lemma_val_single(s: Seq<Limb>, n: nat)
+    requires n >= 1, forall|k: int| 1 <= k < n ==> s[k].0 == 0
+    ensures val(s, n) == s[0].0 as int
+{
+    lemma_val_hi_zero(s, 1, n); lemma_bp1();
+    assert(val(s, 1) == val(s, 0) + s[0].0 as int * bp(0));
+}
+
 pub proof fn lemma_pow2_64()
     ensures pow2(64) == B(), pow2(0) == 1, pow2(1) == 2, pow2(63) == 0x8000_0000_0000_0000
 { lemma2_to64(); lemma2_to64_rest(); }
